@@ -2,8 +2,9 @@
 (***************************************************************************)
 (* Exhaustive exploration of LockDiscipline over the lock table extracted  *)
 (* from the tree under test: for every collection type, every public       *)
-(* method alone (self-deadlock, leaked lock) and every pair of point       *)
-(* operations on two threads, all interleavings (data race, mutual wait).  *)
+(* method alone (self-deadlock, leaked lock, a point operation made of     *)
+(* several critical sections) and every pair of point operations on two    *)
+(* threads, all interleavings (data race, mutual wait).                    *)
 (*                                                                         *)
 (* MC_LockDiscipline.cfg checks the property as invariants.                *)
 (* MC_LockDiscipline_predict.cfg checks nothing and instead LISTS every    *)
@@ -13,6 +14,13 @@
 (***************************************************************************)
 EXTENDS LockDiscipline
 
+\* NoSplit is not checked as an invariant (its refutation is a hint, not a
+\* verdict): the configurations list the point operations made of several
+\* critical sections (scenarios "alone" only, so that each is listed once or
+\* twice) and the runner lets exactly those calls meet each other in directed
+\* concurrent histories judged by Trace_Linearize.
+ReportSplit == (Len(scen.ms) = 1 /\ Split(1)) => PrintT(<<"PRED", "SPLIT", scen.ty, scen.ms[1], Top(1).m>>)
+
 Report ==
   /\ \A t \in Threads : SelfDeadlock(t) =>
         PrintT(<<"PRED", "SELFDEADLOCK", scen.ty, scen.ms[t], Top(t).m, Top(t).o>>)
@@ -20,4 +28,6 @@ Report ==
         PrintT(<<"PRED", "DATARACE", scen.ty, scen.ms[t1], scen.ms[t2], ConflictOn(t1, t2), Top(t1).o>>)
   /\ ~NoMutualDeadlock => PrintT(<<"PRED", "MUTUALDEADLOCK", scen.ty, scen.ms>>)
   /\ ~NoLeak => PrintT(<<"PRED", "LEAK", scen.ty, scen.ms>>)
+  /\ ReportSplit
+
 =============================================================================
